@@ -298,7 +298,7 @@ def check_alignment(ck, prog, which):
                       '%s: the loop at line %s never gives up when nothing arrives' % (q, exc.args[0]),
                       fn.loc(), key='%s::wait-bound' % q)
                 continue
-            if sc.uncountable:
+            if sc.uncountable or any(nt[0] == 'loop-havoc' for o in outs for nt in o.state.notes):
                 raise AnalysisError('%s: a loop test is not decided by the reply scenario; cannot '
                                     'count reads' % q)
             inst = '%s[%s %r, %s]' % (q, kind, name, 'lines arrive' if lines_arrive
